@@ -152,11 +152,33 @@ def check_group(rep, g, seed):
             # only the decisions on the parameter itself are needed
             dec = []
             tname = "s0"
+
+            def leaves(nid, memo={}):
+                key = (id(path), nid)
+                if key in memo:
+                    return memo[key]
+                out, stack, seen = set(), [nid], set()
+                while stack:
+                    i = stack.pop()
+                    if i < 0 or i in seen:
+                        continue
+                    seen.add(i)
+                    n = path.nodes[i]
+                    if n.op in ("var", "poison", "undef"):
+                        out.add(n.name or n.op)
+                    stack.append(n.a)
+                    stack.append(n.b)
+                memo[key] = out
+                return out
+
             for d in path.decisions:
-                pa, pb = c.alg.P(d.a), c.alg.P(d.b)
-                if c.alg.uses_gens(pa - pb, [tname]) and not c.alg.uses_gens(pa - pb, [n for n in c.alg.gen if n != tname and not n.startswith("g")]):
-                    e = z.expr(pb - pa)
-                    dec.append(e > 0 if d.val else e <= 0) if d.rel == "lt" else dec.append(e == 0 if d.val else e != 0)
+                if leaves(d.a) | leaves(d.b) != {tname}:
+                    continue          # only the comparisons on the parameter itself matter here (cheap DAG walk, no algebra)
+                e = z.expr(c.alg.P(d.b) - c.alg.P(d.a))
+                if d.rel == "lt":
+                    dec.append(e > 0 if d.val else e <= 0)
+                else:
+                    dec.append(e == 0 if d.val else e != 0)
             tv = z.zv(tname)
             inside = smt.z3.And(tv >= 0, tv <= 1)
             if path.thrown:
